@@ -169,14 +169,17 @@ PROPS["C02"] = dict(
                "the same orientation (no flipped triangle); before the fan triangles are re-oriented the triangles add up to "
                "the polygon's shoelace area EXACTLY (conservation), the emitted ones are those up to the order of two "
                "vertices, hence their total unsigned area is at least the polygon's and equals it when no fan triangle had to "
-               "be flipped; flush_side's triangles add up exactly to the area of the pending chain, for every chain. "
+               "be flipped; flush_side's triangles add up exactly to the area of the pending chain, for every chain; and for the "
+               "ADVANCED tessellator (the one fills use), again for ALL sequences: its triangles before re-orientation (fans "
+               "of flushed chains + basic triangles) add up to the polygon's area exactly, the emitted ones are those up to "
+               "the order of two vertices, and the emitted areas add up exactly when no triangle had to be flipped. "
                "Interior-disjointness of the stage is validated per run (exact integer area sums). "
                "System level: the output of whole fills (C01's generators) is checked for points covered by more than one "
                "triangle on every scan line with the Coq-evaluated cover count, and on sample points directly; together "
                "with C01's exact coverage this gives 'covered exactly once'.",
     level_note="Trusted: Coq kernel; Base/F32.v rounding (validated against Rust each run); area conservation / orientation are "
-               "theorems for the basic tessellator and for flush_side; that the triangles of a y-monotone piece are pairwise "
-               "disjoint (and the composition advanced = flush + basic) is checked by exact integer area sums on every "
+               "theorems for the basic and the advanced tessellator and for flush_side; that the triangles of a y-monotone "
+               "piece are pairwise disjoint is checked by exact integer area sums on every "
                "enumerated polygon, not by a theorem.",
     technique="Coq proof (invariants over the tessellator state machines) + exhaustive enumeration correspondence via hook",
     coq_targets=["theories/Props/C02.vo", "theories/Run/C02.vo", "theories/Run/C01.vo"],
